@@ -498,6 +498,17 @@ def auto_discharge(s):
                 return "constant range within an array of length %d" % alen
             if need is not None and len_lower_bound(bp, s.facts) >= need:
                 return "constant range under a guard implying len >= %d" % need
+        # `for c in xs.chunks_exact(N)` / `xs.windows(N)` (constant N): every c has exactly N elements
+        bh = ir.local_hid(base)
+        if bh is not None and (iv is not None or rng is not None):
+            need = (iv + 1) if iv is not None else ((rng[1] if rng[1] is not None else rng[0]) or 0)
+            for p_ in s.parents:
+                if p_.get("k") == "for" and p_["pat"].get("k") == "bind" and p_["pat"].get("hid") == bh:
+                    it = ir.unparen(ir.strip(p_["iter"]))
+                    if it.get("k") == "mcall" and (it.get("q") or "") in ("[T]::chunks_exact", "[T]::windows", "core::slice::<impl [T]>::chunks_exact", "core::slice::<impl [T]>::windows") and it.get("a"):
+                        nn = ir.const_eval(it["a"][0], {})
+                        if nn is not None and need <= nn and not ir.contains(p_["body"], lambda y: y.get("k") == "assign" and ir.local_hid(y["l"]) == bh):
+                            return "element of %s(%d): constant index below the fixed chunk length" % (it["name"], nn)
         ip = ir.place_str(idx)
         if index_below_len(ip, bp, s.facts):
             return "index %s is below %s.len() on this path" % (ip, bp)
@@ -525,6 +536,11 @@ def auto_discharge(s):
             al_ = array_len((inner or {}).get("t") or "")
         if al_ is not None and al_ >= need:
             return "scratch buffer of %d units holds every character" % al_
+        return None
+    if s.kind == "std" and n.get("k") == "mcall" and s.desc.startswith(("chunks", "windows")) and len(n.get("a", ())) == 1:
+        sz = ir.const_eval(n["a"][0], {})
+        if sz is not None and sz > 0:
+            return "constant non-zero size %d" % sz
         return None
     if s.kind == "std" and n.get("k") == "mcall" and s.desc.startswith("clamp") and len(n.get("a", ())) == 2:
         lo, hi = ir.const_eval(n["a"][0], {}), ir.const_eval(n["a"][1], {})
